@@ -509,14 +509,28 @@ pub fn run_i8(c: &Case) -> Outcome {
     Ok(obs)
 }
 
+/// bounded-exhaustive scope: every digraph on 1..=3 nodes and every undirected graph on 1..=3 nodes
+/// (loops included) with every assignment of the costs {-3, 0, 2} to its edges, x encoding x source
+const ENUM_P: u64 = 5 * 3;
+fn enum_count(_tier: Tier) -> u64 {
+    small_weighted_count(3, 3) * ENUM_P
+}
+fn enum_make(_tier: Tier, i: u64) -> Case {
+    let (dir, n, code) = small_weighted(i / ENUM_P, 3, 3).expect("index within the scope");
+    let p = i % ENUM_P;
+    // wmode 0 = costs -6..=12: weight(byte) = -6 + (byte * 19 >> 8): 41 -> -3, 81 -> 0, 108 -> 2
+    mk(raw_quaternary(dir, n, code, [41, 81, 108]), (p % 5) as u8, (i % 251) as u8, sel_for((p / 5) as usize % n, n), 0, (i % 6) as u8)
+}
+
 pub fn property() -> Property {
     Property {
         id: "C11",
-        rule: "random weighted multigraphs (1..=9 nodes quick) with weights from five ranges (mixed -6..12, mostly negative, all negative, non-negative control, slightly negative), plus a dedicated class of dense negative-weight DAGs with 6..=10 nodes; stored as Graph / StableGraph+MatrixGraph with vacancies / GraphMap / Csr; cost types i32,i64,f64 (spfa, floyd) and f64,f32 (bellman_ford); verdicts, distances, predecessor trees, prev matrices and returned cycles compared with an exact fixpoint Bellman-Ford over i64 from every source; non-trivial = a negative edge together with an unreachable node or a reachable negative cycle; sub-check i8-extremes: cost type i8 with weights over the whole range -128..=127 (positive weights scaled to sum <= 126 so that every finite estimate stays below max(), the unreachable marker), spfa and floyd_warshall judged whenever their true answers are representable (-128..=126 or a negative cycle), a failure re-run with i64 costs to tell bounded-arithmetic causes from general ones, non-trivial = at least two edges of magnitude >= 64; distinct by case fingerprint",
+        rule: "random weighted multigraphs (1..=9 nodes quick) with weights from five ranges (mixed -6..12, mostly negative, all negative, non-negative control, slightly negative), plus a dedicated class of dense negative-weight DAGs with 6..=10 nodes; stored as Graph / StableGraph+MatrixGraph with vacancies / GraphMap / Csr; cost types i32,i64,f64 (spfa, floyd) and f64,f32 (bellman_ford); verdicts, distances, predecessor trees, prev matrices and returned cycles compared with an exact fixpoint Bellman-Ford over i64 from every source; non-trivial = a negative edge together with an unreachable node or a reachable negative cycle; sub-check i8-extremes: cost type i8 with weights over the whole range -128..=127 (positive weights scaled to sum <= 126 so that every finite estimate stays below max(), the unreachable marker), spfa and floyd_warshall judged whenever their true answers are representable (-128..=126 or a negative cycle), a failure re-run with i64 costs to tell bounded-arithmetic causes from general ones, non-trivial = at least two edges of magnitude >= 64; distinct by case fingerprint; bounded-exhaustive sub-check: every directed / undirected graph on 1..=3 nodes (loops included) with every assignment of the costs {-3,0,2} to its edges x 5 encodings x source",
         assumptions: &["float costs are multiples of 0.25 below 2^10 in magnitude, so every sum is exact and equality needs no tolerance"],
         both_profiles: false,
         subs: vec![
             sub("negcost/general", 3_000_000, 40_000_000, strategy, run),
+            sub_enum("negcost/all-small-weighted-graphs", enum_count, enum_make, run),
             sub("negcost/dense-negative-dag", 1_200_000, 20_000_000, strategy_dense_dag, run),
             sub("negcost/i8-extremes", 1_000_000, 20_000_000, strategy_i8, run_i8),
         ],
